@@ -13,6 +13,7 @@ import (
 	"os/exec"
 	"path/filepath"
 	"reflect"
+	"regexp"
 	"sort"
 	"strconv"
 	"strings"
@@ -241,6 +242,9 @@ func driverSource(bc *BatchCheck, l *prog.Loaded, caseID string, outs map[string
 			}
 		}
 		b.WriteString("\t}\n")
+	}
+	if crudSrc, ok := outs["@sqlcrud-fixed"]; ok {
+		b.WriteString(crudDriver(l, ev, caseID, crudSrc, outs[prog.TSQL], enums, unions, tx))
 	}
 	b.WriteString("\tvlib.Register(c)\n")
 	var hdr strings.Builder
@@ -510,7 +514,7 @@ func runBatchCheck(bc *BatchCheck, tier string) *evid.Report {
 				continue
 			}
 			counts[k] += v
-			if k == "values" || k == "documents" || k == "rand-calls" {
+			if k == "values" || k == "documents" || k == "rand-calls" || k == "transitions" {
 				n += v
 			}
 		}
@@ -603,12 +607,15 @@ func prepareBatchItem(bc *BatchCheck, fc *ProgCheck, it *batchItem, tmp string, 
 		}
 		outs[t] = out[""]
 		switch t {
-		case prog.TGounions, prog.TRanddata:
+		case prog.TGounions, prog.TRanddata, prog.TSqlcrud:
 			name := "gen_" + t + "_verif.go"
 			fixed, errs := compileWithSource(l, name, out[""])
 			if len(errs) > 0 {
 				counts["skipped_not_compiling(C01):"+t]++
 				return false
+			}
+			if t == prog.TSqlcrud {
+				outs["@sqlcrud-fixed"] = fixed
 			}
 			if t == prog.TRanddata {
 				randFuncs = funcNames(fixed)
@@ -642,4 +649,118 @@ func prepareBatchItem(bc *BatchCheck, fc *ProgCheck, it *batchItem, tmp string, 
 		}
 	}
 	return true
+}
+
+var (
+	reUniqueD = regexp.MustCompile(`(?i)ADD (UNIQUE|PRIMARY KEY)\s?\((.*)\)`)
+)
+
+func splitCols(s string) []string {
+	var out []string
+	for _, c := range strings.Split(s, ",") {
+		out = append(out, strings.TrimSpace(c))
+	}
+	return out
+}
+
+func quoteList(l []string) string {
+	q := make([]string, len(l))
+	for i, s := range l {
+		q[i] = strconv.Quote(s)
+	}
+	return "{" + strings.Join(q, ", ") + "}"
+}
+
+// crudDriver emits the table metadata of C05, computed from the syntax tree and go/types.
+func crudDriver(l *prog.Loaded, ev *Eval, caseID, crudSrc, ddl string, enums map[*types.Named]*refEnum, unions map[*types.Named][]*types.Named, tx func(types.Type) string) string {
+	var b strings.Builder
+	fmt.Fprintf(&b, "\tcm := &vlib.CrudMeta{DDL: %s}\n", strconv.Quote(ddl))
+	b.WriteString("\tcm.Funcs = map[string]any{\n")
+	var names []string
+	for n := range funcNames(crudSrc) {
+		names = append(names, n)
+	}
+	sort.Strings(names)
+	for _, n := range names {
+		if n == "loadJSON" || n == "dumpJSON" {
+			continue
+		}
+		fmt.Fprintf(&b, "\t\t%q: %s,\n", n, n)
+	}
+	b.WriteString("\t}\n")
+	for _, sd := range structDecls(ev, 0) {
+		st := sd.named.Underlying().(*types.Struct)
+		tagOf := map[*types.Var]reflect.StructTag{}
+		for i := 0; i < st.NumFields(); i++ {
+			tagOf[st.Field(i)] = reflect.StructTag(st.Tag(i))
+		}
+		name := sd.named.Obj().Name()
+		primary := ""
+		var guards []string
+		var fks []string
+		uniqueCol := map[string]bool{}
+		var uniques, selectKeys [][]string
+		var queries []string
+		for _, line := range sd.doc {
+			m := reDirective.FindStringSubmatch(line)
+			if m == nil {
+				continue
+			}
+			if m[1] == "QUERY" {
+				q, _, _ := strings.Cut(m[2], " ")
+				queries = append(queries, q)
+				continue
+			}
+			if um := reUniqueD.FindStringSubmatch(m[2]); um != nil {
+				cols := splitCols(um[2])
+				if len(cols) == 1 {
+					uniqueCol[cols[0]] = true
+				}
+				uniques = append(uniques, cols)
+			}
+			if sm := reSelectKeyD.FindStringSubmatch(m[2]); sm != nil {
+				selectKeys = append(selectKeys, splitCols(sm[1]))
+			}
+		}
+		isFK := map[string]bool{}
+		for _, f := range flatFields(st, enums, unions) {
+			tag := tagOf[f]
+			if tag.Get("gomacro-sql-guard") != "" {
+				guards = append(guards, f.Name())
+				continue
+			}
+			if !f.Exported() {
+				continue
+			}
+			if primary == "" && strings.ToLower(f.Name()) == "id" {
+				primary = f.Name()
+			}
+			rc := refColumn{field: f, tag: tag}
+			if fkTarget(rc, name, enums) != "" {
+				isFK[f.Name()] = true
+				nullable, data := false, ""
+				if stt, ok := f.Type().Underlying().(*types.Struct); ok {
+					if d := nullWrapped(stt); d != nil {
+						nullable, data = true, d.Name()
+					}
+				}
+				fks = append(fks, fmt.Sprintf("{Field: %q, Nullable: %v, DataName: %q, Unique: %v}", f.Name(), nullable, data, uniqueCol[f.Name()]))
+			}
+		}
+		var ul []string
+		for _, u := range uniques {
+			if len(u) == 1 && isFK[u[0]] {
+				continue
+			}
+			ul = append(ul, quoteList(u))
+		}
+		var sl []string
+		for _, u := range selectKeys {
+			sl = append(sl, quoteList(u))
+		}
+		fmt.Fprintf(&b, "\tcm.Tables = append(cm.Tables, vlib.TableMeta{Name: %q, Type: %s, Primary: %q, Guards: []string%s, FKs: []vlib.FKMeta{%s}, Uniques: [][]string{%s}, SelectKeys: [][]string{%s}, Queries: []string%s})\n",
+			name, tx(sd.named), primary, quoteList(guards), strings.Join(fks, ", "), strings.Join(ul, ", "), strings.Join(sl, ", "), quoteList(queries))
+	}
+	fmt.Fprintf(&b, "\tvlib.RegisterCrud(%q, cm)\n", caseID)
+	return b.String()
 }
